@@ -71,6 +71,11 @@ def comp_to_lean(node, env, inline=None, attrs=None):
             return "(%s %s %s)" % (a, "∈" if isinstance(n.ops[0], ast.In) else "∉", b)
         if isinstance(n, ast.BoolOp):
             return "(" + (" ∧ " if isinstance(n.op, ast.And) else " ∨ ").join(cond(v, env) for v in n.values) + ")"
+        if isinstance(n, ast.UnaryOp) and isinstance(n.op, ast.Not):
+            return "(¬ %s)" % cond(n.operand, env)
+        if not isinstance(n, ast.Compare):
+            # Python truthiness of a value that is no comparison (`if col.name`): no proposition to translate to
+            raise Untranslatable("truthiness of %s" % ast.unparse(n))
         return to_lean(n, env)
 
     def elem(n, env):
